@@ -63,7 +63,7 @@ def _inverse(case):
     cls = DWT1DInverse if case['dim'] == 1 else DWTInverse
     msp = case.get('mode_spelling', case['mode'])
     with dwtu.default_dtype(dwtu.tdt(case['dtype'])):
-        sib = dwtu.sibling(case['wave']) if (case.get('reused') and not case.get('wave_row')) else None
+        sib = dwtu.sibling(case['wave']) if (case.get('reused') and not case.get('wave_row') and case['mode'] != 'reflect') else None
         if sib is None:
             wa = c01.wave_arg(case, 'rec')
             m = cls(wave=wa, mode=msp)
@@ -134,9 +134,12 @@ def run_case(case):
                 th.append(torch.tensor(h[:, None] if h.ndim == dim + 1 + (dim == 2) else h,
                                        dtype=tdt))
         snap = list(th)
+        copies = [tl.clone()] + [None if t is None else t.clone() for t in th]
         ok, out = lib(inv, (tl, th))
         if ok and (len(th) != len(snap) or any(a is not b for a, b in zip(th, snap))):
             r.fail('mutated_list', 'the coefficient list passed in was modified')
+        if ok and any(c_ is not None and not torch.equal(t_, c_) for t_, c_ in zip([tl] + snap, copies)):
+            r.fail('mutated_argument', 'a coefficient tensor passed in was modified by the inverse')
         return ok, out
 
     # ---- 1. synthesis operator on basis pyramids (no None) vs PyWavelets
